@@ -1,6 +1,8 @@
 package mon
 
 import (
+	"sync/atomic"
+	"sync"
 	"bytes"
 	"encoding/base64"
 	"encoding/binary"
@@ -652,17 +654,170 @@ func c20HandBuilt(w *core.W, j int) {
 	}
 }
 
+// c20TypeLists: records that carry a list of types (NSEC, NSEC3, CSYNC, NXT) built by hand with lists the
+// wire never yields - a type named twice, types out of order. Whatever the relation makes of them, it is
+// an equivalence: symmetric over every pair, transitive over every triple of the family.
+func c20TypeLists(w *core.W, j int) {
+	alphabet := []uint16{dns.TypeA, dns.TypeMX, dns.TypeTXT, dns.TypeAAAA, dns.TypeRRSIG}
+	var lists [][]uint16
+	n := 2 + j%2
+	var rec func(cur []uint16)
+	rec = func(cur []uint16) {
+		if len(cur) == n {
+			lists = append(lists, append([]uint16(nil), cur...))
+			return
+		}
+		for _, t := range alphabet[:3+j%3] {
+			rec(append(cur, t))
+		}
+	}
+	rec(nil)
+	mk := func(kind int, bm []uint16) dns.RR {
+		h := dns.RR_Header{Name: "types.example.", Class: 1, Ttl: 60}
+		switch kind {
+		case 0:
+			h.Rrtype = dns.TypeNSEC
+			return &dns.NSEC{Hdr: h, NextDomain: "next.example.", TypeBitMap: bm}
+		case 1:
+			h.Rrtype = dns.TypeNSEC3
+			return &dns.NSEC3{Hdr: h, Hash: 1, Iterations: 1, SaltLength: 0, Salt: "", HashLength: 20, NextDomain: "0123456789ABCDEFGHIJKLMNOPQRSTUV", TypeBitMap: bm}
+		case 2:
+			h.Rrtype = dns.TypeCSYNC
+			return &dns.CSYNC{Hdr: h, Serial: 1, Flags: 3, TypeBitMap: bm}
+		}
+		h.Rrtype = dns.TypeNXT
+		return &dns.NXT{NSEC: dns.NSEC{Hdr: h, NextDomain: "next.example.", TypeBitMap: bm}}
+	}
+	kind := (j / 6) % 4
+	name := []string{"NSEC", "NSEC3", "CSYNC", "NXT"}[kind]
+	var rrs []dns.RR
+	for _, l := range lists {
+		rrs = append(rrs, mk(kind, l))
+	}
+	w.Eval(1)
+	w.Count("type_list_families", 1)
+	dup := make([][]bool, len(rrs))
+	wit := map[string]any{"type": name, "list_length": n}
+	if w.Guard("IsDuplicate(type lists)", wit, func() {
+		for a := range rrs {
+			dup[a] = make([]bool, len(rrs))
+			for b := range rrs {
+				dup[a][b] = dns.IsDuplicate(rrs[a], rrs[b])
+			}
+		}
+	}) {
+		return
+	}
+	for a := range rrs {
+		if !dup[a][a] {
+			w.Violation("C20/not-reflexive/"+name+"/type-list", fmt.Sprintf("IsDuplicate(r, r) is false for %s", cutS(rrs[a].String())), wit)
+			return
+		}
+		for b := range rrs {
+			if dup[a][b] != dup[b][a] {
+				w.Violation("C20/not-symmetric/"+name+"/type-list", fmt.Sprintf("IsDuplicate(a,b)=%v but IsDuplicate(b,a)=%v for type lists %v and %v", dup[a][b], dup[b][a], lists[a], lists[b]), wit)
+				return
+			}
+			if !dup[a][b] {
+				continue
+			}
+			for c := range rrs {
+				if dup[b][c] && !dup[a][c] {
+					w.Violation("C20/not-transitive/"+name+"/type-list", fmt.Sprintf("type lists %v ~ %v and %v ~ %v, but not %v ~ %v", lists[a], lists[b], lists[b], lists[c], lists[a], lists[c]), wit)
+					return
+				}
+			}
+		}
+	}
+	w.Count("type_list_pairs", len(rrs)*len(rrs))
+	w.NontrivialStr("type-lists", name, fmt.Sprint(n), fmt.Sprint(j%3))
+}
+
+// c20ConcurrentDedup: Dedup from 8 goroutines at once, each on lists of its own (hundreds of records, every
+// group two to four strong): what each call returns is what the same call returns alone.
+func c20ConcurrentDedup(w *core.W, j int) {
+	mkList := func(t, round int) []dns.RR {
+		var l []dns.RR
+		groups := 150 + (t*37+round*11+j)%200
+		for gi := 0; gi < groups; gi++ {
+			for c := 0; c < 2+(gi+t)%3; c++ {
+				name := fmt.Sprintf("h%d-%d.example.", t, gi)
+				if c%2 == 1 {
+					name = strings.ToUpper(name)
+				}
+				l = append(l, &dns.A{Hdr: dns.RR_Header{Name: name, Rrtype: dns.TypeA, Class: 1, Ttl: uint32(1000 - c*100 + gi)}, A: []byte{10, byte(t), byte(gi >> 8), byte(gi)}})
+			}
+		}
+		// interleave the groups: members are not adjacent
+		out := make([]dns.RR, 0, len(l))
+		for off := 0; off < 3; off++ {
+			for i := off; i < len(l); i += 3 {
+				out = append(out, l[i])
+			}
+		}
+		return out
+	}
+	render := func(l []dns.RR) string {
+		var sb strings.Builder
+		for _, r := range l {
+			sb.WriteString(r.String())
+			sb.WriteByte('\n')
+		}
+		return sb.String()
+	}
+	const rounds = 6
+	want := map[[2]int]string{}
+	for t := 0; t < 8; t++ {
+		for r := 0; r < rounds; r++ {
+			want[[2]int{t, r}] = render(dns.Dedup(mkList(t, r), nil))
+		}
+	}
+	var bad atomic.Int32
+	var first atomic.Value
+	var wg sync.WaitGroup
+	for t := 0; t < 8; t++ {
+		wg.Add(1)
+		go func(t int) {
+			defer wg.Done()
+			defer func() {
+				if r := recover(); r != nil {
+					bad.Add(1)
+					first.CompareAndSwap(nil, fmt.Sprintf("panic: %v", r))
+				}
+			}()
+			for rep := 0; rep < 3; rep++ {
+				for r := 0; r < rounds; r++ {
+					in := mkList(t, r)
+					if got := render(dns.Dedup(in, nil)); got != want[[2]int{t, r}] {
+						bad.Add(1)
+						first.CompareAndSwap(nil, fmt.Sprintf("list of %d records: %d lines alone, %d lines now", len(in), strings.Count(want[[2]int{t, r}], "\n"), strings.Count(got, "\n")))
+					}
+				}
+			}
+		}(t)
+	}
+	wg.Wait()
+	w.Eval(1)
+	w.Count("concurrent_dedup_calls", 8*3*rounds)
+	if n := bad.Load(); n > 0 {
+		w.Violation("C20/concurrent-use-differs/Dedup-large-lists", fmt.Sprintf("%d of %d Dedup calls made from 8 goroutines at once, each on a list of its own, returned something else than the same call made alone (%v)", n, 8*3*rounds, first.Load()), nil)
+	}
+	w.NontrivialStr("concurrent-dedup", fmt.Sprint(j))
+}
+
 func init() {
 	plan, run := sections(
 		section{"pairs", tiered(3000, 80000), c20Pairs},
 		section{"hand-built", tiered(600, 15000), c20HandBuilt},
 		section{"dedup", tiered(2500, 60000), c20Dedup},
 		concurrentSection("C20"),
+		section{"type-lists", tiered(24, 240), c20TypeLists},
+		section{"concurrent-dedup", tiered(6, 60), c20ConcurrentDedup},
 	)
 	core.Register(&core.Monitor{
 		ID: "C20", Level: "exploration", Plan: plan, Run: run,
 		Rule: "per registry type: a wire-originated record against its copy and variants {identical, TTL, owner case, embedded-name case, one RDATA field re-drawn (x3), class, APL IPv4 item vs the same address as IPv4-mapped IPv6 item}; oracle = model key (type, class, lower-cased owner wire, RDATA wire with embedded names lower-cased); " +
-			"symmetry, reflexivity, transitivity over the equal variants; Dedup against a stable first-occurrence filter keyed by text minus TTL with lower-cased owner, minimum TTL, with nil, fresh and reused scratch maps (later lists repeat records an earlier call kept); the same operations called from 8 goroutines at once give the results they give alone; non-trivial = distinct (record, variant) pair / list with duplicates",
-		MinObserved: []string{"triples", "dedup_lists_with_duplicates", "hand_built_records"},
+			"symmetry, reflexivity, transitivity over the equal variants; Dedup against a stable first-occurrence filter keyed by text minus TTL with lower-cased owner, minimum TTL, with nil, fresh and reused scratch maps (later lists repeat records an earlier call kept); hand-built NSEC/NSEC3/CSYNC/NXT records over all type lists of length 2-3 from a 3-5 letter alphabet (repeats, any order): reflexive, symmetric, transitive; Dedup of 300-1000-record lists from 8 goroutines at once; the same operations called from 8 goroutines at once give the results they give alone; non-trivial = distinct (record, variant) pair / list with duplicates",
+		MinObserved: []string{"triples", "dedup_lists_with_duplicates", "hand_built_records", "type_list_pairs", "concurrent_dedup_calls"},
 	})
 }
